@@ -220,6 +220,9 @@ var RacePass func()
 
 var registry = map[string]*Check{}
 
+// DebugCmds are developer commands (`vcheck debug <name> ...`), never part of a verdict.
+var DebugCmds = map[string]func(args []string){}
+
 func Register(c *Check)       { registry[c.ID] = c }
 func Lookup(id string) *Check { return registry[id] }
 func IDs() []string {
